@@ -53,3 +53,45 @@ _tree("C05", "seeded populate loops (nested level by level) whose body is the sc
 _tree("C10", "value-returning and read-only operations applied to tensors in reached states; operands snapshotted "
       "before/after, identity sets of all tensors pairwise disjoint, both sides mutated afterwards and cross-talk "
       "detected by snapshot comparison after every event. distinct/non-trivial as C01")
+
+
+# ------------------------------------------------------------------------------------ KernelSim
+from .kernelsim import KernelSim  # noqa: E402
+
+REAL_KERNEL = dict(REAL_CORE, **{
+    "fibertree.core.metrics.Metrics": "real; its open() is the simulator's file seam",
+    "fibertree.model.compute / intersect": "real",
+    "file system": "real files in a per-run scratch directory under /dev/shm behind the interposer (worst-case buffering, numbered events, injected OSError)",
+    "kernel interpreter, dense evaluator, shadow merge": "simulator-side reference",
+})
+
+KERNEL_ASSUME = [
+    "kernels come from a 13-member einsum family (1-3 operands, 1-3 index variables) written in the library's idiom; shapes <= 5",
+    "single-threaded; a body exception unwinds the nest innermost-first exactly as Python does",
+    "seeded search over (einsum, operands); loop orders, tile sizes of one rank and intersection styles are enumerated per sampled case",
+]
+
+
+def kernel_budget(q_runs, t_runs, q_wall=50, t_wall=540):
+    return {"quick": {"max_runs": q_runs, "wall": q_wall, "dup_every": 25, "shrink_s": 40, "run_timeout": 120},
+            "thorough": {"max_runs": t_runs, "wall": t_wall, "dup_every": 100, "shrink_s": 120, "run_timeout": 300}}
+
+
+REGISTRY["C06"] = {
+    "world": KernelSim, "level": "exploration", "budget": kernel_budget(20000, 400000),
+    "rule": "each evaluation is one sampled (einsum, operand values) executed under every loop order, every tile size "
+            "of one sampled rank (tile loops adjacent or separated) and the three intersection styles with the real "
+            "swizzleRanks / splitUniform / & / << / +=; every execution is compared with a dense evaluation. "
+            "distinct = distinct event-log digest; non-trivial = at least two dataflows executed",
+    "components": REAL_KERNEL, "assumptions": KERNEL_ASSUME,
+}
+REGISTRY["C15"] = {
+    "world": KernelSim, "level": "exploration", "budget": kernel_budget(20000, 400000),
+    "rule": "each evaluation is one pristine child: the target session first (reference), the same kernel with "
+            "collection off, then a history of 0-6 sessions of arbitrary kernels / registrations / thresholds that end "
+            "normally, by a body exception, abandoned, rejected by an undrained consumable trace or by an injected "
+            "OSError at a file event, then the target session again; counts are compared with the interpreter's own, "
+            "dump() and trace files with the first-session run. distinct = distinct event-log digest; non-trivial = "
+            "at least two kernel executions",
+    "components": REAL_KERNEL, "assumptions": KERNEL_ASSUME,
+}
